@@ -96,6 +96,8 @@ def task_batch(prop, seed, runs, want_sample, tier="quick"):
             "state_hash": r.state_hash,
             "cpu": time.process_time() - t0,
         }
+        if getattr(r, "extras", None):
+            d["extras"] = r.extras
         if r.violation or r.harness_error or (want_sample and run == runs[0]):
             d["ops"] = r.ops
             d["cfg"] = r.cfg
@@ -219,6 +221,7 @@ class LazyPools(dict):
     def __init__(self, build_dir, per):
         super().__init__()
         self.build_dir, self.per = build_dir, per
+        os.environ["GSIM_BUILD_DIR"] = build_dir
 
     def __missing__(self, b):
         self[b] = make_pool(self.build_dir, b, self.per)
@@ -231,6 +234,14 @@ class LazyPools(dict):
 
 def do_replay(args, prof, pools):
     rp = json.load(open(args.replay))
+    if "post_sample" in rp:
+        post = prof.post_batch([{"extras": {"java": [rp["post_sample"]]}, "run": 0}], pools, pools.build_dir, 0)
+        for pv in post.get("violations", []):
+            print("violation: %s: %s" % (pv["check"], pv["detail"]))
+            print("VIOLATION property=%s replay=%s" % (rp["property"], os.path.abspath(args.replay)))
+            return 1
+        print("replay did not reproduce a violation")
+        return 0
     res = pools[rp["backend"]].submit(task_replay, rp["property"], rp["seed"], rp["run"], rp["cfg"], rp["ops"]).result(timeout=900)
     v = res["violation"]
     print("replay: steps=%d digest=%s" % (res["steps"], res["digest"]))
@@ -349,7 +360,18 @@ def do_batch(args, tier, prof, pools, t_start, jobs):
                 continue
             rp = minimise_and_record(prop, args.seed, d, pools)
             reported.append(rp)
+    post = None
+    if not violations and hasattr(prof, "post_batch"):
+        post = prof.post_batch(results, pools, pools.build_dir, args.seed)
+        for pv in post.get("violations", []):
+            os.makedirs(os.path.join(VERIF, "replays"), exist_ok=True)
+            path = os.path.join(VERIF, "replays", "%s-%d-post-%s.json" % (prop, args.seed, pv["id"]))
+            with open(path, "w") as f:
+                json.dump({"property": prop, "post_sample": pv["sample"], "violation": {"prop": prop, "check": pv["check"], "detail": pv["detail"], "step": 0}}, f, indent=1)
+            reported.append({"violation": {"check": pv["check"], "step": 0, "detail": pv["detail"]}, "ops": [], "verified": True, "path": path})
     ev = prof.evidence(prop, tier, args.seed, results, time.time() - t_start, cut, lo, hi, jobs, pools_info=BACKENDS)
+    if post is not None:
+        ev["coverage"].update(post.get("coverage", {}))
     ev["violations"] = len([d for d in violations if not any(finding_matches(f, prop, d["violation"]) for f in known["findings"])])
     for f in known["findings"]:
         if f.get("property") != prop:
@@ -418,7 +440,7 @@ def minimise_and_record(prop, seed, d, pools):
     # fresh-process verification
     try:
         cp = subprocess.run(
-            [sys.executable, os.path.join(VERIF, "gsim", "runner.py"), prop, "--replay", path],
+            [sys.executable, os.path.join(VERIF, "gsim", "main.py"), prop, "--replay", path],
             capture_output=True,
             text=True,
             timeout=600,
